@@ -1797,7 +1797,10 @@ class AstEval:
         val = {}
         for key_ast, val_ast in zip(arg.keys, arg.values):
             if key_ast is None:
-                val.update(await self.aeval(val_ast))
+                mapping = await self.aeval(val_ast)
+                if not hasattr(mapping, "keys"):
+                    raise TypeError(f"'{type(mapping).__name__}' object is not a mapping")
+                val.update(mapping)
             else:
                 # the key is evaluated before the value
                 key = await self.aeval(key_ast)
@@ -1890,6 +1893,8 @@ class AstEval:
         for kw_arg in arg.keywords:
             if kw_arg.arg is None:
                 mapping = await self.aeval(kw_arg.value)
+                if not hasattr(mapping, "keys"):
+                    raise TypeError(f"argument after ** must be a mapping, not {type(mapping).__name__}")
                 for key in mapping.keys():
                     if key in kwargs:
                         raise TypeError(f"got multiple values for keyword argument '{key}'")
